@@ -485,6 +485,9 @@ kll_sketch<T, C, A> kll_sketch<T, C, A>::deserialize(std::istream& is, const Ser
   for (uint8_t lvl = 0; lvl < num_levels; ++lvl) {
     if (levels[lvl] > levels[lvl + 1]) throw std::invalid_argument("Possible corruption: level boundaries must not decrease or exceed capacity");
   }
+  if (kll_helper::sum_the_sample_weights(num_levels, levels.data()) != n) {
+    throw std::invalid_argument("Possible corruption: total weight does not match N");
+  }
   optional<T> tmp; // space to deserialize min and max
   optional<T> min_item;
   optional<T> max_item;
@@ -573,6 +576,9 @@ kll_sketch<T, C, A> kll_sketch<T, C, A>::deserialize(const void* bytes, size_t s
   if (num_levels == 0) throw std::invalid_argument("Possible corruption: number of levels must not be 0");
   for (uint8_t lvl = 0; lvl < num_levels; ++lvl) {
     if (levels[lvl] > levels[lvl + 1]) throw std::invalid_argument("Possible corruption: level boundaries must not decrease or exceed capacity");
+  }
+  if (kll_helper::sum_the_sample_weights(num_levels, levels.data()) != n) {
+    throw std::invalid_argument("Possible corruption: total weight does not match N");
   }
   optional<T> tmp; // space to deserialize min and max
   optional<T> min_item;
